@@ -557,3 +557,21 @@ func sequences(c *engine.Ctx, wd *world, evals *int64) {
 	rec(nil)
 	_ = context.Background
 }
+
+// Exported framing helpers (reused by C04 for seed tokens).
+var (
+	OIDKRB5   = oidKRB5
+	OIDMSKRB5 = oidMSKRB5
+	OIDSPNEGO = oidSPNEGO
+)
+
+// KRB5Tok frames inner as a GSS-API Kerberos mechanism token with the given token id.
+func KRB5Tok(tokID []byte, inner []byte) []byte { return krb5Tok(tokID, inner) }
+
+// NegInit builds a NegTokenInit.
+func NegInit(mechs [][]int, token []byte, gssFrame bool) []byte {
+	return negInit(mechs, token, gssFrame)
+}
+
+// NegResp builds a NegTokenResp.
+func NegResp(state int64, mech []int, token []byte) []byte { return negResp(state, mech, token) }
